@@ -1,3 +1,93 @@
-"""Self-test of the checkers (DESIGN §8) — filled in later in the build."""
-def run_for_property(pid, seed, root):
-    return dict(variants=0, caught=0, twins_silent=0, skipped=0, failures=[])
+"""Self-test of the checkers (DESIGN §8), run by the thorough tier.
+
+For every variant of the property in sa/selftest_variants.py the current source of one
+file is edited *in memory* (Model overlay — no scratch copy, nothing executed), the
+property's rules are re-evaluated, and the verdict delta against the unmodified tree is
+compared with the expectation:
+
+  break -> a NEW violation of the named rule must appear
+  twin  -> no new violation and no new analysis error may appear
+
+A wrong delta is a failure of the checker (exit 2), never a verdict about the repository.
+Variants run on up to 16 processes.
+"""
+from __future__ import annotations
+
+import os
+import pathlib
+import random
+from concurrent.futures import ProcessPoolExecutor
+from typing import Dict, List, Tuple
+
+
+def _verdict(pid: str, root: str, overlay: Dict[str, str]):
+    from .check import Ctx, prop_module
+    from . import report as R
+    mod = prop_module(pid)
+    ctx = Ctx(root, overlay=overlay)
+    out = R.evaluate(pid, "quick", mod.SPECS, ctx, R.load_known())
+    viol = sorted({(i.rule, i.key) for i in out.violations})
+    return viol, sorted(out.errors)
+
+
+def _one(args) -> Tuple[int, str, str]:
+    ix, pid, root, rel, old, new, kind, rule, base_viol, base_err = args
+    p = pathlib.Path(root) / rel
+    try:
+        src = p.read_text(encoding="utf8")
+    except OSError:
+        return ix, "skipped", f"{rel} not found"
+    if old not in src:
+        return ix, "skipped", "anchor text absent from the current tree"
+    edited = src.replace(old, new, 1)
+    try:
+        compile(edited, rel, "exec")
+    except SyntaxError as e:
+        return ix, "skipped", f"variant does not compile: {e}"
+    try:
+        viol, err = _verdict(pid, root, {rel: edited})
+    except Exception as e:  # AnalysisError etc.
+        viol, err = [], [f"{type(e).__name__}: {e}"]
+    new_viol = [v for v in viol if v not in base_viol]
+    new_err = [e for e in err if e not in base_err]
+    if kind == "break":
+        if any(v[0].startswith(rule) for v in new_viol):
+            return ix, "caught", f"{[v for v in new_viol if v[0].startswith(rule)][0]}"
+        return ix, "FAIL", f"break variant not reported by {rule}: new violations {new_viol[:3]}, new errors {new_err[:1]}"
+    if new_viol or new_err:
+        return ix, "FAIL", f"behaviour-preserving twin raised {new_viol[:2] or new_err[:1]}"
+    return ix, "silent", ""
+
+
+def run_for_property(pid: str, seed: int, root: str, sample: int = 0) -> dict:
+    from .selftest_variants import VARIANTS
+    mine = [v for v in VARIANTS if v[0] == pid]
+    rng = random.Random(seed)
+    rng.shuffle(mine)
+    if sample:
+        mine = mine[:sample]
+    if not mine:
+        return dict(variants=0, caught=0, twins_silent=0, skipped=0, failures=[], note="no variants registered for this property")
+    base_viol, base_err = _verdict(pid, root, {})
+    jobs = [(i, pid, root, rel, old, new, kind, rule, base_viol, base_err) for i, (_, rel, old, new, kind, rule) in enumerate(mine)]
+    workers = min(16, len(jobs), os.cpu_count() or 4)
+    results = []
+    if workers > 1:
+        with ProcessPoolExecutor(max_workers=workers) as ex:
+            results = list(ex.map(_one, jobs))
+    else:
+        results = [_one(j) for j in jobs]
+    caught = sum(1 for r in results if r[1] == "caught")
+    silent = sum(1 for r in results if r[1] == "silent")
+    skipped = [(mine[r[0]][1], r[2]) for r in results if r[1] == "skipped"]
+    failures = [f"{mine[r[0]][1]}: '{mine[r[0]][2][:40]}' -> '{mine[r[0]][3][:40]}': {r[2]}" for r in results if r[1] == "FAIL"]
+    return dict(variants=len(mine), caught=caught, twins_silent=silent, skipped=len(skipped),
+                skipped_detail=[f"{a}: {b}" for a, b in skipped][:10], failures=failures,
+                detail=[dict(file=mine[r[0]][1], kind=mine[r[0]][4], rule=mine[r[0]][5], outcome=r[1], what=r[2][:160]) for r in results])
+
+
+if __name__ == "__main__":
+    import sys
+    import json
+    pid = sys.argv[1]
+    print(json.dumps(run_for_property(pid, 0, "/repo"), indent=1)[:4000])
